@@ -60,7 +60,10 @@ CLAIM = {
              "Round 3: (a) settings-HISTORY cases - every history runs on ONE ctx/settings object that `gate`/`set` ops edit in place "
              "(graph.enabled, clamp, mode, alpha, floor, half-life, threshold, top-k, pair cap, promotion settings); each call is compared with "
              "the model under the CURRENT values and, differentially, with the same call on a fresh deep copy of the settings "
-             "(monitor settings_current_values). (b) component gel_turn drives the REAL Orchestrator.run_turn (harness/lib/turnrig.py) "
+             "(monitor settings_current_values); while a history runs NOTHING but its one long-lived ctx (plain dict ctx, .cfg holder or "
+             ".config holder, per case) is handed to gel.py - the fresh-settings differential and a replay of the whole history on a long-lived "
+             "ctx of another shape (monitor ctx_shape_invariant) run afterwards - so a resolved-settings memo of any shape (single slot, keyed "
+             "by identity) stays warm exactly as on a live context. (b) component gel_turn drives the REAL Orchestrator.run_turn (harness/lib/turnrig.py) "
              "with graph.enabled on worlds with 4-7 episodes / scripted T2 hits, observe_top_k below the number of hits and t2.ranking "
              "weights that list hits away from score order; after every turn state.graph must equal the model's observe on ALL hits T2 "
              "returned (with their scores) followed by tick(1), and the Lean monitor obsTopB (theorem C18_observe_topk_by_score) is "
@@ -551,14 +554,16 @@ class GelComp(Component):
         # ONE ctx / settings object for the whole history; `gate` and `set` edit it in place
         ctx = make_ctx(case.get("ctx_style", "dict"), g)
         out: List[dict] = []
+        pending: List[tuple] = []
         for idx, op in enumerate(case["ops"]):
             enabled = bool(g.get("enabled", False))
             pre = snap(state)
             rec: Dict[str, Any] = {"pre": pre, "enabled": enabled, "m": m_repr(model_of(g))}
             tag = op[0]
-            # differential: the same call on a copy of the state with a FRESH deep copy of the current settings
-            st_f = copy.deepcopy(state) if tag not in ("gate", "set") else None
-            ctx_f = make_ctx(case.get("ctx_style", "dict"), copy.deepcopy(g))
+            # kept for the differential passes below (run AFTER the whole history: nothing but the one long-lived
+            # ctx is handed to gel.py while the history runs, so a memo of any shape - single slot, keyed by id - stays warm)
+            if tag not in ("gate", "set"):
+                pending.append((len(out), op, copy.deepcopy(state), copy.deepcopy(g)))
             if tag == "gate":
                 g["enabled"] = bool(op[1])
                 r: Any = None
@@ -610,32 +615,66 @@ class GelComp(Component):
                 raise ValueError(f"bad op {tag}")
             rec["r"] = r
             rec["s"] = snap(state)
-            if st_f is not None:
-                try:
-                    if tag == "obs":
-                        mf = gel.observe_retrieval(ctx_f, st_f, self._mk_items(op[1], op[3] if len(op) > 3 else "tuple"), turn=op[2], agent="A")
-                        rf: Any = {"k_in": mf["k_in"], "k_used": mf["k_used"], "pairs_updated": mf["pairs_updated"]}
-                    elif tag == "tick":
-                        mf = gel.tick(ctx_f, st_f, decay_dt=op[1], turn=op[2], agent="A")
-                        rf = {"decayed": mf["decayed_edges"], "dropped": mf["dropped_edges"]}
-                    elif tag == "merge":
-                        gel.apply_merge(ctx_f, st_f, _py(op[1])); rf = None
-                    elif tag == "split":
-                        gel.apply_split(ctx_f, st_f, _py(op[1])); rf = None
-                    elif tag == "ap":
-                        gel.apply_promotion(ctx_f, st_f, _py(op[1])); rf = None
-                    else:
-                        psf = gel.promote_clusters(ctx_f, st_f, copy.deepcopy(op[1]))
-                        rf = [{"cid": p["concept_id"], "label": p["label"], "members": list(p["members"]), "w": wbits(p["attach_weight"])} for p in psf]
-                        if tag == "promote":
-                            for p in psf:
-                                gel.apply_promotion(ctx_f, st_f, p)
-                    rec["fresh_same"] = (canon_state(snap(st_f)) == canon_state(rec["s"]) and rf == r)
-                except Exception as e:  # the fresh-settings run must behave like the in-use one
-                    rec["fresh_same"] = False
-                    rec["fresh_exc"] = type(e).__name__
             out.append(rec)
+        # differential pass 1: every call again on a copy of its pre-state with a FRESH deep copy of the settings then in force
+        style = case.get("ctx_style", "dict")
+        for i, op, st_f, g_f in pending:
+            rec = out[i]
+            try:
+                rf = self._plain_call(gel, make_ctx(style, g_f), st_f, op)
+                rec["fresh_same"] = (canon_state(snap(st_f)) == canon_state(rec["s"]) and rf == rec["r"])
+            except Exception as e:  # the fresh-settings run must behave like the in-use one
+                rec["fresh_same"] = False
+                rec["fresh_exc"] = type(e).__name__
+        # differential pass 2: the whole history again on ONE long-lived ctx of another accepted shape (plain dict ctx /
+        # ctx.cfg holder / ctx.config holder), its own settings dicts edited in place the same way
+        other = {"dict": "cfg", "cfg": "config", "config": "dict"}[style if style in ("dict", "cfg", "config") else "dict"]
+        g2 = copy.deepcopy(resolve(case["cfg"])[0])
+        ctx2 = make_ctx(other, g2)
+        state2: Any = {} if case.get("state_style") == "dict" else _Obj()
+        for i, op in enumerate(case["ops"]):
+            rec = out[i]
+            try:
+                if op[0] == "gate":
+                    g2["enabled"] = bool(op[1])
+                    r2: Any = None
+                elif op[0] == "set":
+                    apply_set(g2, op[1], op[2])
+                    r2 = None
+                else:
+                    r2 = self._plain_call(gel, ctx2, state2, op)
+                rec["shape_same"] = (canon_state(snap(state2)) == canon_state(rec["s"]) and r2 == rec["r"])
+            except Exception as e:
+                rec["shape_same"] = False
+                rec["shape_exc"] = type(e).__name__
         return {"trace": out, "accepted": accepted, "m": m_repr(m)}
+
+    def _plain_call(self, gel: Any, ctx: Any, state: Any, op: list) -> Any:
+        """One API call, no differentials; returns what the trace records under `r`."""
+        tag = op[0]
+        if tag == "obs":
+            mf = gel.observe_retrieval(ctx, state, self._mk_items(op[1], op[3] if len(op) > 3 else "tuple"), turn=op[2], agent="A")
+            return {"k_in": mf["k_in"], "k_used": mf["k_used"], "pairs_updated": mf["pairs_updated"]}
+        if tag == "tick":
+            mf = gel.tick(ctx, state, decay_dt=op[1], turn=op[2], agent="A")
+            return {"decayed": mf["decayed_edges"], "dropped": mf["dropped_edges"]}
+        if tag == "merge":
+            gel.apply_merge(ctx, state, _py(op[1]))
+            return None
+        if tag == "split":
+            gel.apply_split(ctx, state, _py(op[1]))
+            return None
+        if tag == "ap":
+            gel.apply_promotion(ctx, state, _py(op[1]))
+            return None
+        if tag in ("pc", "promote"):
+            ps = gel.promote_clusters(ctx, state, copy.deepcopy(op[1]))
+            r = [{"cid": p["concept_id"], "label": p["label"], "members": list(p["members"]), "w": wbits(p["attach_weight"])} for p in ps]
+            if tag == "promote":
+                for p in ps:
+                    gel.apply_promotion(ctx, state, p)
+            return r
+        raise ValueError(f"bad op {tag}")
 
     # ---- model request / comparison -------------------------------------------------------------
     def request(self, case: dict) -> dict:
@@ -783,6 +822,9 @@ class GelComp(Component):
                 res.append(("settings_current_values", bool(t["fresh_same"]),
                             f"op {i} {tag}: the call on the in-use settings object (edited in place earlier in the history) differs from "
                             f"the same call with a fresh deep copy of the current settings {t['m']}"))
+            if "shape_same" in t:
+                res.append(("ctx_shape_invariant", bool(t["shape_same"]),
+                            f"op {i} {tag}: the same history on a long-lived ctx of another accepted shape (dict / .cfg / .config) gave a different store or result"))
             if tag in ("gate", "set"):
                 res.append(("gate_off_identity", pre == post, f"op {i} {tag}: editing the settings changed the store"))
             elif tag == "obs":
